@@ -513,7 +513,7 @@ pub fn with_type<V: TypeVisitor>(inst: &Inst, v: V) -> Result<V::Out, String> {
 /// Visitor over a fully built Prio3 instance.
 pub trait VdafVisitor {
     type Out;
-    fn visit<T, P>(self, vdaf: Prio3<T, P, 32>) -> Self::Out
+    fn visit<T, P>(self, vdaf: Prio3<T, P, 32>, typ: T) -> Self::Out
     where
         T: TypeBridge + 'static,
         T::Field: FieldBig,
@@ -553,9 +553,9 @@ pub fn with_vdaf<V: VdafVisitor>(cfg: &VdafCfg, v: V) -> Result<V::Out, String> 
         {
             let c = self.cfg;
             match c.xof {
-                XofKind::Turbo => Prio3::<T, XofTurboShake128, 32>::new(c.n_agg, c.n_proofs, c.alg_id, typ).map(|vd| self.v.visit(vd)).map_err(|e| format!("{e}")),
-                XofKind::Hmac => Prio3::<T, XofHmacSha256Aes128, 32>::new(c.n_agg, c.n_proofs, c.alg_id, typ).map(|vd| self.v.visit(vd)).map_err(|e| format!("{e}")),
-                XofKind::Biased => Prio3::<T, BiasedXof, 32>::new(c.n_agg, c.n_proofs, c.alg_id, typ).map(|vd| self.v.visit(vd)).map_err(|e| format!("{e}")),
+                XofKind::Turbo => Prio3::<T, XofTurboShake128, 32>::new(c.n_agg, c.n_proofs, c.alg_id, typ.clone()).map(|vd| self.v.visit(vd, typ)).map_err(|e| format!("{e}")),
+                XofKind::Hmac => Prio3::<T, XofHmacSha256Aes128, 32>::new(c.n_agg, c.n_proofs, c.alg_id, typ.clone()).map(|vd| self.v.visit(vd, typ)).map_err(|e| format!("{e}")),
+                XofKind::Biased => Prio3::<T, BiasedXof, 32>::new(c.n_agg, c.n_proofs, c.alg_id, typ.clone()).map(|vd| self.v.visit(vd, typ)).map_err(|e| format!("{e}")),
             }
         }
     }
